@@ -1064,6 +1064,7 @@ func newStructConverter(typ reflect.Type) (*StructConverter, error) {
 // PointerConverter converts between *T and the Risor equivalent of T.
 type PointerConverter struct {
 	valueConverter TypeConverter
+	valueType      reflect.Type
 }
 
 func (c *PointerConverter) To(obj Object) (interface{}, error) {
@@ -1074,8 +1075,14 @@ func (c *PointerConverter) To(obj Object) (interface{}, error) {
 	if err != nil {
 		return nil, err
 	}
-	vp := reflect.New(reflect.TypeOf(v))
-	vp.Elem().Set(reflect.ValueOf(v))
+	vp := reflect.New(c.valueType)
+	if v != nil {
+		rv := reflect.ValueOf(v)
+		if !rv.Type().AssignableTo(c.valueType) {
+			return nil, errz.TypeErrorf("type error: cannot use %s as %s", rv.Type(), c.valueType)
+		}
+		vp.Elem().Set(rv)
+	}
 	return vp.Interface(), nil
 }
 
@@ -1094,7 +1101,7 @@ func newPointerConverter(indirectType reflect.Type) (*PointerConverter, error) {
 	if err != nil {
 		return nil, err
 	}
-	return &PointerConverter{valueConverter: indirectConv}, nil
+	return &PointerConverter{valueConverter: indirectConv, valueType: indirectType}, nil
 }
 
 // SliceConverter converts between []T and the Risor equivalent of []T.
